@@ -512,5 +512,16 @@ pub fn run(ctx: &Ctx) {
         emit(&mut out, case_conc(ty, &threads));
     }
 
+    // (E2) many fresh shared histograms, each hit by 2-4 threads at the same moment with ONE value per thread, all in
+    // different buckets: bookkeeping that is updated next to the bucket (a running maximum, an "occupied" hint) races
+    // exactly here, where every recorder's value matters
+    for _ in 0..(if thorough { 30000 } else { 4000 }) {
+        let nt = rng.range(2, 4) as usize;
+        let mut exps: Vec<u64> = (0..nt as u64).map(|t| 4 * t + rng.below(3)).collect();
+        if rng.chance(1, 2) { exps.reverse(); }
+        let threads: Vec<Vec<Src>> = exps.iter().map(|e| vec![Src::Obs(Observation::Unsigned(1u64 << e))]).collect();
+        emit(&mut out, case_conc(Ty::U64, &threads));
+    }
+
     out.finish("layout queries: every value is its own case; histogram cases: at least two recorded sources and a non-empty closed distribution; distinct by hash of the case");
 }
